@@ -203,11 +203,25 @@ pub fn repo_dir() -> std::path::PathBuf {
     "/repo".into()
 }
 
-/// JSON pointers (in the generated message) of the `{"substr": [{"fake": ..}, 0, N]}` sites of a scenario schema
-fn substr_sites(schema: &Value, path: &mut Vec<String>, out: &mut Vec<(String, usize)>) {
+/// `substr(fake, 0, N)` sites of a scenario schema: (JSON pointer of the generated string, N, constant prefix, faker).
+/// A site is either the `substr` node itself or a `{"cat": [<constant strings>…, <substr node>]}` around it.
+fn substr_sites(schema: &Value, path: &mut Vec<String>, out: &mut Vec<(String, usize, String, String)>) {
+    fn as_substr(v: &Value) -> Option<(usize, String)> {
+        let a = v.get("substr")?.as_array()?;
+        if a.len() != 3 { return None; }
+        let faker = a[0].get("fake")?.as_array()?.first()?.as_str()?.to_string();
+        Some((a[2].as_u64()? as usize, faker))
+    }
     match schema {
         Value::Object(o) => {
-            if let Some(Value::Array(a)) = o.get("substr") { if a.len() == 3 && a[0].get("fake").is_some() { if let Some(n) = a[2].as_u64() { out.push((format!("/{}", path.join("/")), n as usize)); } } return; }
+            if let Some((n, faker)) = as_substr(schema) { out.push((format!("/{}", path.join("/")), n, String::new(), faker)); return; }
+            if let Some(Value::Array(parts)) = o.get("cat") {
+                if let Some((last, init)) = parts.split_last() { if let Some((n, faker)) = as_substr(last) { if init.iter().all(|p| p.is_string()) {
+                    let prefix: String = init.iter().filter_map(|p| p.as_str()).collect();
+                    out.push((format!("/{}", path.join("/")), n, prefix, faker));
+                } } }
+                return;
+            }
             for (k, v) in o { path.push(k.clone()); substr_sites(v, path, out); path.pop(); }
         }
         Value::Array(a) => for (i, v) in a.iter().enumerate() { path.push(i.to_string()); substr_sites(v, path, out); path.pop(); },
@@ -377,17 +391,26 @@ pub fn run(ctx: &Ctx) -> i32 {
             let mut sites = vec![]; substr_sites(sc.value.get("schema").unwrap_or(&Value::Null), &mut vec![], &mut sites);
             let base = run_chain(&sc.value, &Sched { base: Base::Lcg(1), devs: vec![], clock: t0 });
             if let Some(g) = base.generated {
-                for (ptr, n) in sites {
-                    let Some(Value::String(line)) = g.pointer(&ptr).cloned() else { continue };
-                    for (k, ch) in line.char_indices() {
-                        if ch != ' ' || k == 0 || k + 1 > n { continue; }
+                for (ptr, n, prefix, faker) in sites {
+                    let Some(Value::String(whole)) = g.pointer(&ptr).cloned() else { continue };
+                    let Some(line) = whole.strip_prefix(prefix.as_str()).map(|x| x.to_string()) else { continue };
+                    let mut variants: Vec<(String, String)> = vec![];
+                    // (a) the cut lands right after a blank
+                    for (k, ch) in line.char_indices() { if ch == ' ' && k > 0 && k + 1 <= n { variants.push(("line cut after a blank".into(), line[..=k].to_string())); } }
+                    // (b) the cut takes effect: the text is at least N characters long (compound fakers produce such texts)
+                    if ["company_name", "street_address", "name", "sentence", "words", "bs"].contains(&faker.as_str()) && !line.is_empty() && line.chars().count() < n {
+                        let mut padded = line.clone(); while padded.chars().count() < n { padded.push_str(" AND "); padded.push_str(&line); }
+                        variants.push(("line of exactly N characters".into(), padded.chars().take(n).collect::<String>().trim_end().to_string()));
+                        let full: String = padded.chars().take(n).map(|c| if c == ' ' { 'X' } else { c }).collect(); variants.push(("line of exactly N characters".into(), full));
+                    }
+                    for (what, newline) in variants {
                         let mut v = g.clone();
-                        if let Some(x) = v.pointer_mut(&ptr) { *x = Value::String(line[..=k].to_string()); }
+                        if let Some(x) = v.pointer_mut(&ptr) { *x = Value::String(format!("{prefix}{newline}")); }
                         derived_order += 1; acc.runs += 1; acc.derived_runs += 1;
                         let mut t = None;
                         if let Some((clause, detail)) = judge_generated(&v, &mut t) {
                             acc.outcomes.insert(clause.clone());
-                            acc.col.add(format!("C15/{}/{}/{}", sc.mt, sc.name, clause), order0 + (1 << 31) + derived_order, || format!("derived draw (line cut after a blank at {ptr}): {detail}"), || json!({"scenario": sc.path.to_string_lossy(), "derived": {"pointer": ptr, "line": &line[..=k]}, "generated": v, "mt": t}));
+                            acc.col.add(format!("C15/{}/{}/{}", sc.mt, sc.name, clause), order0 + (1 << 31) + derived_order, || format!("derived draw ({what} at {ptr}): {detail}"), || json!({"scenario": sc.path.to_string_lossy(), "derived": {"pointer": ptr, "line": newline}, "generated": v, "mt": t}));
                         }
                     }
                 }
